@@ -479,7 +479,7 @@ impl FileSystem for ScriptFs {
         self.simple("readlink", a, |r| {
             let n = match r.below(6) {
                 0 => 0,
-                1 => 4095,
+                1 if !cfg!(miri) => 4095,
                 _ => r.below(300) as usize,
             };
             let b = r.bytes(n);
